@@ -100,6 +100,16 @@ struct Explorer
         for (size_t k = 0; k <= std::min(s + 1, c); k++)
             for (int x = 1; x <= cfg.nvalues; x++)
                 add("EM", static_cast<int>(k), x);
+        if (copyable)
+            for (size_t j = 0; j < s; j++)
+            {
+                // an element of the container itself as the argument
+                add("EBS", static_cast<int>(j));
+                add("PBS", static_cast<int>(j));
+                add("ICS", static_cast<int>(j));
+                for (size_t k = 0; k <= s; k++)
+                    add("EMS", static_cast<int>(k), static_cast<int>(j));
+            }
         add("POP");
         for (size_t k = 0; k <= std::min(s, c); k++)
             add("ER", static_cast<int>(k));
